@@ -242,6 +242,18 @@ PROPS = {
                                      'clock pinned with --wrap=time/gettimeofday; per-process private TMPDIR; path scripts use the same file name in different directories'],
         floor={'quick': 200, 'thorough': 1000},
     ),
+    'C14': dict(
+        runs=[dict(src='c14_routes.c', ldflags='-Wl,--wrap=time,--wrap=gettimeofday')],
+        level='exploration',
+        rule=('case = (format, channels, variant): one generated file (variants: plain, strings, 60 KB custom chunk before the audio, truncated tail, damaged '
+              'header byte) opened through virtual I/O (reference), path, descriptor with close_desc 0 and 1, descriptor positioned at offsets 1/7/4096 inside a '
+              'file with leading and trailing junk (WAV, WAVEX, AIFF, AU) and a pre-filled pipe (WAV, AIFF, AU sample-granular): SF_INFO, samples in 4 types, strings '
+              'and open outcome compared; fcntl(F_GETFD) and /proc/self/fd before/after for close_desc. Plus per format the same write script through path, '
+              'descriptor and virtual I/O (bytes compared; SVX/MPC2K length only) and an embedded write behind existing content. distinct = hash(format, ch, variant, PRNG state)'),
+        assumptions=COMMON_ASSUME + ['SD2 is path-only (resource fork) and is exercised by C16/C19',
+                                     'pipe comparison covers the samples only: frame counts are unknown on a pipe'],
+        floor={'quick': 500, 'thorough': 1500},
+    ),
 }
 
 NOT_APPLICABLE = {}
